@@ -124,6 +124,20 @@ func (propC07) Gen(seed uint64, tier string) *Case {
 		k = 8
 	}
 	c := &Case{Property: "C07", Seed: seed, Tier: tier, Recipe: rec}
+	if r.Chance(0.5) {
+		// an unrelated File over the same pools of hosts and base names (colliding with this one's)
+		pr := NewRNG(Mix(seed, 0xb011))
+		pcfg := baseCfg(pr)
+		pcfg.NPaths = pr.Range(2, 6)
+		pg := &Gen{r: pr, cfg: pcfg}
+		pg.universe()
+		prec := &Recipe{Paths: pg.paths, File: FileSpec{Ctor: "name", Name: "other"}}
+		for i := pr.Range(1, 2); i > 0; i-- {
+			prec.Ops = append(prec.Ops, Op{K: "add", Node: pg.decl()})
+		}
+		prec.Ops = append(prec.Ops, Op{K: "render"})
+		c.Pollute = []*Recipe{prec}
+	}
 	c.Cfg, _ = json.Marshal(cfg)
 	c.Execs = append(c.Execs, ExecSpec{Mode: "identity"}, ExecSpec{Mode: "reverse"})
 	for i := 2; i < k; i++ {
@@ -144,6 +158,12 @@ func (propC07) Check(c *Case) (*Violation, *RunInfo) {
 		junkSink = nil
 		for j := 0; j < 8+ei*3; j++ {
 			junkSink = append(junkSink, make([]byte, 64+j*40))
+		}
+		if ei > 0 && len(c.Pollute) > 0 && ei%2 == 1 {
+			// from the state a fresh process starts with, something unrelated happens first
+			restoreGlobals()
+			Exec(c.Pollute[(ei/2)%len(c.Pollute)], newEnv(newFileSim("identity", 0)))
+			ri.count("executions_after_unrelated_work", 1)
 		}
 		sim := es.sim()
 		hist := Exec(c.Recipe, newEnv(sim))
@@ -234,9 +254,13 @@ func c07SafeCase(base uint64, i int, tier string) *Case {
 
 // plainHist (runs inside the plain, unrewritten binary): every case built and rendered
 // `repeats` times in this process; prints index -> digest per repeat.
-func plainHist(base uint64, from, to, repeats int, tier string) {
+func plainHist(base uint64, from, to, repeats int, tier string, reverse bool) {
 	out := map[string][]string{}
-	for i := from; i < to; i++ {
+	for n := from; n < to; n++ {
+		i := n
+		if reverse { // a different process history: whatever one build leaves behind meets other builds
+			i = to - 1 - (n - from)
+		}
 		c := c07SafeCase(base, i, tier)
 		for rep := 0; rep < repeats; rep++ {
 			junkSink = nil
@@ -290,8 +314,12 @@ func (propC07) Post(tier string, base uint64) ([]workerViolation, map[string]int
 				continue
 			}
 			jobs++
+			order := "fwd"
+			if p%2 == 1 {
+				order = "rev"
+			}
 			go func(from, to int) {
-				cmd := exec.Command(plain, "plainhist", fmt.Sprint(base), fmt.Sprint(from), fmt.Sprint(to), fmt.Sprint(reps), tier)
+				cmd := exec.Command(plain, "plainhist", fmt.Sprint(base), fmt.Sprint(from), fmt.Sprint(to), fmt.Sprint(reps), tier, order)
 				b, err := cmd.Output()
 				var m map[string][]string
 				if err == nil {
@@ -337,6 +365,12 @@ func (propC07) Post(tier string, base uint64) ([]workerViolation, map[string]int
 		}
 		if v, ri := runCheck(propC07{}, c); v != nil {
 			viols = append(viols, workerViolation{Index: -1 - i, Seed: c.Seed, V: v, Case: freeze(c, ri)})
+		} else if pc := pinToProcessHistory(base, i, tier); pc != nil {
+			v, ri := runCheck(propC07{}, pc)
+			if v != nil {
+				v.Detail += " (found by the cross-process leg; pinned to one unrelated File built earlier in the same process)"
+				viols = append(viols, workerViolation{Index: -1 - i, Seed: pc.Seed, V: v, Case: freeze(pc, ri)})
+			}
 		} else {
 			c.Execs = []ExecSpec{{Mode: "identity"}}
 			viols = append(viols, workerViolation{Index: -1 - i, Seed: c.Seed, Case: c,
@@ -347,4 +381,39 @@ func (propC07) Post(tier string, base uint64) ([]workerViolation, map[string]int
 		}
 	}
 	return viols, counters
+}
+
+// pinToProcessHistory looks for one neighbouring case of the cross-process sweep whose
+// earlier execution in the same process changes the output of case i, and returns a
+// simulated case (recipe + that neighbour as Pollute) that fails without any real process.
+func pinToProcessHistory(base uint64, i int, tier string) *Case {
+	c := c07SafeCase(base, i, tier)
+	render := func(before *Recipe) string {
+		restoreGlobals()
+		if before != nil {
+			Exec(before, newEnv(newFileSim("identity", 0)))
+		}
+		var parts []interface{}
+		for _, o := range Exec(c.Recipe, newEnv(newFileSim("identity", 0))) {
+			if o.Render {
+				parts = append(parts, o.class(), o.Out)
+			}
+		}
+		return digest(parts...)
+	}
+	clean := render(nil)
+	for d := 1; d <= 40; d++ {
+		for _, j := range []int{i - d, i + d} {
+			if j < 0 {
+				continue
+			}
+			other := c07SafeCase(base, j, tier).Recipe
+			if render(other) != clean {
+				c.Pollute = []*Recipe{other}
+				c.Execs = []ExecSpec{{Mode: "identity"}, {Mode: "identity"}}
+				return c
+			}
+		}
+	}
+	return nil
 }
